@@ -64,6 +64,9 @@ func (b *Bytes) View(start, end int64) (Blob, error) {
 	if end < 0 || end > int64(b.Len()) {
 		return nil, fmt.Errorf("End index out of bounds: %d", end)
 	}
+	if start > end {
+		return nil, fmt.Errorf("Start index %d is after end index %d", start, end)
+	}
 	b.mu.Lock()
 	defer b.mu.Unlock()
 	newB := NewBytes(b.bytes[start:end])
@@ -79,6 +82,9 @@ func (b *Bytes) Slice(start, end int64) (Blob, error) {
 	if end < 0 || end > int64(b.Len()) {
 		return nil, fmt.Errorf("End index out of bounds: %d", end)
 	}
+	if start > end {
+		return nil, fmt.Errorf("Start index %d is after end index %d", start, end)
+	}
 	buf := make([]byte, end-start)
 	b.mu.Lock()
 	copy(buf, b.bytes)
@@ -91,7 +97,7 @@ func (b *Bytes) Set(src Blob, destStart int64) (n int, err error) {
 	if destStart < 0 {
 		return 0, errors.New("negative offset")
 	}
-	if destStart >= int64(b.Len()) && destStart == 0 && src.Len() > 0 {
+	if destStart > int64(b.Len()) || (destStart == 0 && b.Len() == 0 && src.Len() > 0) {
 		return 0, fmt.Errorf("Offset out of bounds: %d", destStart)
 	}
 	b.mu.Lock()
@@ -102,6 +108,9 @@ func (b *Bytes) Set(src Blob, destStart int64) (n int, err error) {
 
 // Grow implements Blob.
 func (b *Bytes) Grow(offset int64) error {
+	if offset < 0 {
+		return fmt.Errorf("Negative grow size: %d", offset)
+	}
 	b.mu.Lock()
 	b.bytes = append(b.bytes, make([]byte, offset)...)
 	atomic.StoreInt64(&b.length, int64(len(b.bytes)))
@@ -111,6 +120,9 @@ func (b *Bytes) Grow(offset int64) error {
 
 // Truncate implements Blob.
 func (b *Bytes) Truncate(size int64) error {
+	if size < 0 {
+		return fmt.Errorf("Negative truncate size: %d", size)
+	}
 	if int64(b.Len()) < size {
 		return nil
 	}
